@@ -46,7 +46,7 @@ def gen(rng, tier):
             yield {"family": "tls.alpn", "kind": "tls", "backend": be, "offer": offer, "backends": [be]}
     n = 0
     kinds = ["alpn_h2", "alpn_h11", "tls_noalpn", "prior", "h2c", "h2c_settings", "h2c_body", "websocket", "plain", "plain_pipelined",
-             "not_get_with_ws_fields"]
+             "not_get_with_ws_fields", "h2c_http10"]
     reps = 4 if tier == "quick" else 12
     for rep in range(reps):
         for kind in kinds:
@@ -88,6 +88,11 @@ def gen(rng, tier):
                            (b"content-length: %d\r\n\r\n%s" % (len(body), body) if body else b"\r\n"))
                 trailing = _h1_req(tags[1])
                 truth.update(proto="h1", version="1.1", expect=[tags[0], tags[1]])
+            elif kind == "h2c_http10":
+                # "an HTTP/1.1 request with Upgrade: h2c": an HTTP/1.0 client cannot be sent a 101 (RFC 7230 6.7) - it stays HTTP/1.x
+                opening = b"GET /t%d HTTP/1.0\r\nHost: h.example\r\nConnection: Upgrade, HTTP2-Settings\r\nUpgrade: h2c\r\nHTTP2-Settings: \r\n\r\n" % tags[0]
+                trailing = b""
+                truth.update(proto="h1", version="1.0", expect=[tags[0]])
             elif kind == "h2c_body":
                 if rng.random() < 0.5:
                     opening = _h1_req(tags[0], extra=b"Connection: Upgrade, HTTP2-Settings\r\nUpgrade: h2c\r\nHTTP2-Settings: \r\n", body=b"has-a-body")
